@@ -1145,7 +1145,13 @@ fn judge(case: &Case, out: &CaseOut, limit: usize, max_refs: usize, checks: &mut
                     _ => format!("racing_append_changes_bundle:{stage}"),
                 };
                 if flagged.insert((ob.anchor_idx, class.clone())) {
-                    v.push((ob.anchor_idx, class, format!("anchor {:?}, compile at point {} of {:?}: {}   before the append => {}   after => {}", out.compiled[ob.anchor_idx].anchor, ob.point, case.race[ob.op_idx], brief(&ob.out), brief(&before[ob.anchor_idx]), brief(&after[ob.anchor_idx]))));
+                    // when the one-line views coincide the difference is in the decision: show it
+                    let dec = |o: &Out| match o {
+                        Out::Ok { decision, .. } => short(&decision.to_string()),
+                        other => other.canon(),
+                    };
+                    let detail = if brief(&ob.out) == brief(&before[ob.anchor_idx]) || brief(&ob.out) == brief(&after[ob.anchor_idx]) { format!("   decisions: during => {}   before => {}   after => {}", dec(&ob.out), dec(&before[ob.anchor_idx]), dec(&after[ob.anchor_idx])) } else { String::new() };
+                    v.push((ob.anchor_idx, class, format!("anchor {:?}, compile at point {} of {:?}: {}   before the append => {}   after => {}{detail}", out.compiled[ob.anchor_idx].anchor, ob.point, case.race[ob.op_idx], brief(&ob.out), brief(&before[ob.anchor_idx]), brief(&after[ob.anchor_idx]))));
                 }
             }
         }
